@@ -579,6 +579,8 @@ type tWorld struct {
 	store *memDataStore
 	rows  map[int]map[string]any // by id
 	json  map[int][]byte         // the harness's own json.Marshal of each row
+	// walkTok is the harness's own definition of the world's configured tokenizer (nil: the default one)
+	walkTok func(string) []string
 }
 
 func (c *Ctx) tNewWorld(tc tConfig) *tWorld {
